@@ -570,6 +570,17 @@ def run(chk):
         libc_part(chk, tools)
         if not quick:
             sanitizer_part(chk, tools)
+            if r['ok']:
+                # independent re-check of the compiled proofs and of the axioms they rest on
+                rc, out, err = vlib.sh(['timeout', '1700', 'coqchk', '-o', '-silent', '-Q', '.', 'MirV', 'MirV.Properties_C08'],
+                                       cwd=vlib.COQDIR, timeout=1800)
+                txt = out + err
+                ok = rc == 0 and '* Axioms: <none>' in txt
+                chk.cov['coqchk'] = 'coqchk -o MirV.Properties_C08: rc=%d, %s' % (rc, 'Axioms: <none>' if ok else txt[-400:])
+                chk.log(chk.cov['coqchk'][:120])
+                if not ok:
+                    chk.finding('coqchk', dict(kind='coqchk', rc=rc, tail=txt[-1500:]),
+                                'coqchk does not accept the compiled C08 proofs without axioms', no_input=True)
         chk.cov['rule'] = ('each generated declaration is compiled into one probe TU run by c2m (-ei) and by gcc; sizeof, '
                            '_Alignof, every named member offset/size and every bit-field position (found by storing all-ones '
                            'into a zeroed object) are compared with the extracted Coq models (c2mir model vs c2m, SysV model vs gcc) '
